@@ -32,6 +32,7 @@ CONSTANTS MaxRows, MaxBatches,
           NKeyVals,      \* group key codes 0..NKeyVals-1, plus NULL
           MaxVal,        \* aggregated values 1..MaxVal, plus NULL
           P,             \* partitions (64 in the code)
+          HashAll,       \* TRUE: every hash function; FALSE: the NULL key hashes to partition 1
           DoubleCount,
           EmitMod
 
@@ -92,7 +93,7 @@ Decide == /\ pc = "fill" /\ pos > Len(sizes)
           /\ \E t \in 0..N :
                /\ T' = t
                /\ IF N > t THEN /\ path' = "spill" /\ pc' = "take" /\ pos' = 1 /\ UNCHANGED out
-                                /\ h' \in [KeyDom -> 1..P]                       \* any hash function
+                                /\ h' \in {f \in [KeyDom -> 1..P] : HashAll \/ f[NULL] = 1}                       \* any hash function
                            ELSE /\ path' = "mem" /\ pc' = "done" /\ out' = AggSeq(AllRows) /\ UNCHANGED <<pos, h>>
           /\ UNCHANGED <<input, sizes, mem, disk, total, spills>>
 
